@@ -1396,6 +1396,9 @@ func (in *Interp) selectOp(fr *frame, x *ssa.Select) Value {
 				in.emit("poll", ch.ctx.String(), fmt.Sprint(in.ctxCancelled(fr, ch.ctx)))
 			}
 			if in.chanReady(fr, ch) {
+				if ch.ctx == nil {
+					in.emit("chan.recv", fmt.Sprintf("chan#%d", ch.id))
+				}
 				res := mk()
 				res[0] = Int(uint64(i))
 				return res, true
